@@ -20,6 +20,7 @@ EXTRA_FILES = {
     "C15": ["bionumpy/io/strops.py"],
     "C03": ["bionumpy/bnpdataclass/lazybnpdataclass.py"],
     "C19": ["bionumpy/bnpdataclass/lazybnpdataclass.py"],
+    "C14": ["bionumpy/genomic_data/genomic_intervals.py"],
 }
 
 
